@@ -18,7 +18,10 @@ CLAIMS = {
          "non-zero divisors and all 8 modes the kernel returns the unique integer the "
          "standard (General Decimal Arithmetic) definition assigns to the exact quotient; "
          "fraction path and Decimal.quantize path are the same function of the value; error "
-         "bounds; default-mode and zero-divisor behaviour. The dispatch around the kernels "
+         "bounds; default-mode and zero-divisor behaviour; at the level of quantities (qtyQuantize / qtyRound of the model): the result is, in the "
+         "called quantity's unit and type, the multiple of the quantum converted to that unit selected by the requested or default mode for "
+         "either representation, other types / types without reference unit are TypeError, round(q, n) keeps unit and type and yields a "
+         "multiple of 10^-n less than one such unit away. The dispatch around the kernels "
          "(Quantity.quantize with the quantum in any unit of the type, negative quanta, other types, "
          "quantised types, Decimal and Fraction amounts; round(q, n)) is tied by correspondence "
          "against the real code in the predefined catalogue and in random user histories.",
@@ -140,14 +143,19 @@ CLAIMS = {
  "C12": ("Lean 4 proof (stack discipline; induction over well-nested programs with exceptional exits) + differential correspondence on operation sequences",
          "Theorems (Props/C12.lean): removing the top converter undoes its registration; removing any other raises and changes nothing; empty stack "
          "IndexError; conversions consult the top; for EVERY well-nested program of with-blocks (normal or exceptional exit anywhere) the stack "
-         "after equals the stack before (induction on the nesting); generic types: idempotent registration, removal restores. Correspondence: "
+         "after equals the stack before (induction on the nesting); generic types: idempotent registration, removal restores, an unregistered "
+         "converter cannot be removed - all stated about the model functions the driver executes (stackPush, stackRemove, registerGeneric, "
+         "removeGeneric). Correspondence: converter objects registered, re-registered, removed, listed and called directly; "
          "random sequences over 4 converters incl. the same converter entered twice with another in between; thorough: all sequences <= 4.",
          "6 C12", NOTE),
  "C14": ("Lean 4 proof (table lookup rule, round trips, composition; kernel-decided consistency and fixed points of the translated temperature table) + differential correspondence",
          "Theorems (Props/C14.lean): direct row => a*f+o, only the opposite row => (a-o)/f, neither => no answer; last row wins; one-direction "
          "tables round-trip identically and two-direction tables do iff the rows are inverse, via-third-unit equals direct iff the rows compose "
          "— for ALL amounts; Gen/TempTable.lean (regenerated from predefined.py): all six rows pairwise inverse and composing, complete, and the "
-         "fixed points 0 degC = 273.15 K = 32 degF, -40 = -40, 0 K = -459.67 degF. Correspondence: temperature and random user tables.",
+         "fixed points 0 degC = 273.15 K = 32 degF, -40 = -40, 0 K = -459.67 degF; the table look-up of the quantity model IS this tableConvert "
+         "(tableLookup_eq_tableConvert), and Quantity.convert in a reference-less type with the table registered returns exactly what the "
+         "table says, UnitConversionError otherwise (convert_through_table). Correspondence: temperature and random user tables (list and "
+         "mapping form, int / Fraction / Decimal entries, both directions tabulated with non-inverse rows, units WITH a definition in the type).",
          "6 C14", NOTE),
  "C19": ("Lean 4 proof (equal quantities of a type with reference unit have equal hash keys; terms; rates use the quotation for both) + differential correspondence on equal-by-construction pairs",
          "Theorems (Props/C19.lean): for quantities of a type with reference unit, a == b implies equal hash keys whatever the units and "
